@@ -284,6 +284,24 @@ def handle (j : Json) : Except String Json := do
       | .invalid => Json.str "invalid"
       | .ok sS sT sV => Json.mkObj [("ok", Json.arr #[(sS : Json), (sT : Json), (sV : Json)]),
           ("order", idsJson (Stk.chkSort sS (files.length / sS) files))])
+  | "stack_guess" =>
+    -- files: [[v, t, p, id, [cand values or null, ...]], ...]
+    let ncands ← (← j.getObjVal? "ncands").getNat?
+    let num ← (← j.getObjVal? "num").getNat?
+    let den ← (← j.getObjVal? "den").getNat?
+    let gfs ← (← (← j.getObjVal? "files").getArr?).toList.mapM fun e => do
+      let a ← e.getArr?
+      match a.toList with
+      | [v, t, p, i, cs] =>
+        let cands ← (← cs.getArr?).toList.mapM fun c =>
+          if c.isNull then pure (none : Option Int) else do pure (some (← c.getInt?))
+        pure ({ f := { v := ← v.getInt?, t := ← t.getInt?, p := ← p.getInt?, id := ← i.getNat? },
+                cands := cands } : Stk.GF)
+      | _ => .error "bad guess file tuple"
+    pure (match Stk.guessShape (Stk.spacingOkInt num den) ncands gfs with
+      | (.invalid, _) => Json.str "invalid"
+      | (.ok sS sT sV, k) => Json.mkObj [("ok", Json.arr #[(sS : Json), (sT : Json), (sV : Json)]),
+          ("key", match k with | some k => (k : Json) | none => Json.null)])
   | "stack_run" =>
     let files ← getFiles (← j.getObjVal? "files")
     let sS ← (← j.getObjVal? "S").getNat?
